@@ -82,6 +82,10 @@ func verifHistory(s *SugarDB, db int, key string) {
 		s.setExpiry(ctx, key, time.UnixMilli(4_000_000_000_000), false)
 		s.setExpiry(ctx, key, time.Time{}, false)
 	}
+	// the history is about the state it leaves behind, not about goroutines still in flight: the
+	// asynchronous bookkeeping the writes above started has finished before the harness goes on
+	// (otherwise an access-count update of the *earlier* value lands on the preset that follows)
+	vr.Quiesce()
 }
 
 func verifPresetExpiry(s *SugarDB, db int, key string, at time.Time) {
